@@ -109,27 +109,41 @@ fn ends_with_block(b: &SBranch) -> bool {
     t.starts_with('{') && t.ends_with('}') && syn::parse_str::<syn::Expr>(t).map(|e| matches!(e, syn::Expr::Block(_))).unwrap_or(false)
 }
 
-fn glue_ok(left: &str, right: &str) -> bool {
-    // gluing two pieces without whitespace must not create a different token
-    let l = left.chars().last();
-    let r = right.chars().next();
-    match (l, r) {
-        (Some(a), Some(b)) => {
-            let ident = |c: char| c.is_alphanumeric() || c == '_';
-            let punct = |c: char| "+-*/%^!&|<>=@.,;:#$?~'\"".contains(c);
-            if ident(a) && ident(b) {
-                return false;
+fn flat_tokens(s: &str) -> Option<Vec<String>> {
+    fn walk(ts: proc_macro2::TokenStream, out: &mut Vec<String>) {
+        for t in ts {
+            match t {
+                proc_macro2::TokenTree::Group(g) => {
+                    out.push(format!("{:?}(", g.delimiter()));
+                    walk(g.stream(), out);
+                    out.push(")".into());
+                }
+                other => out.push(other.to_string()),
             }
-            if punct(a) && punct(b) {
-                return false;
-            }
-            // `1.` + `.` etc.
-            if a.is_ascii_digit() && b == '.' {
-                return false;
-            }
-            true
         }
-        _ => true,
+    }
+    let ts: proc_macro2::TokenStream = s.parse().ok()?;
+    let mut v = Vec::new();
+    walk(ts, &mut v);
+    Some(v)
+}
+
+/// gluing two pieces without whitespace is allowed when it does not change the tokens (`x|>f`,
+/// `Vec<u8>..len()`, `a?=>f`), i.e. lexing the concatenation gives the tokens of the two pieces
+fn glue_ok(left: &str, right: &str) -> bool {
+    // only the last piece of the text so far matters: take its tail after the last whitespace
+    let tail = left.rsplit(char::is_whitespace).next().unwrap_or(left);
+    if tail.is_empty() || right.is_empty() {
+        return true;
+    }
+    match (flat_tokens(tail), flat_tokens(right), flat_tokens(&format!("{}{}", tail, right))) {
+        (Some(a), Some(b), Some(c)) => {
+            let mut ab = a;
+            ab.extend(b);
+            ab == c
+        }
+        // the tail may be cut inside a group / literal: be conservative
+        _ => false,
     }
 }
 
